@@ -35,6 +35,7 @@ func (o xopt) String() string { return fmt.Sprintf("%s %v", o.fixed, o.v) }
 type eopt struct {
 	fixed  string
 	lo, hi []int64
+	dep    bool // from a deprecated stanza (counts down)
 }
 
 func (o eopt) String() string {
@@ -404,6 +405,7 @@ func expectRA(in modelIn) *modelOut {
 				vlo, vhi := remaining(in.epoch, valid, in.t1, in.t2)
 				plo, phi := remaining(in.epoch, pref, in.t1, in.t2)
 				e.lo, e.hi = []int64{vlo, plo}, []int64{vhi, phi}
+				e.dep = true
 			} else {
 				v := m.field(fmt.Sprintf("prefix[%d].valid_lifetime", i), valid, max32)
 				q := m.field(fmt.Sprintf("prefix[%d].preferred_lifetime", i), pref, max32)
@@ -442,6 +444,7 @@ func expectRA(in modelIn) *modelOut {
 			if r.Deprecated {
 				lo, hi := remaining(in.epoch, lt, in.t1, in.t2)
 				e.lo, e.hi = []int64{lo}, []int64{hi}
+				e.dep = true
 			} else {
 				v := m.field(fmt.Sprintf("route[%d].lifetime", i), lt, max32)
 				e.lo, e.hi = []int64{v}, []int64{v}
